@@ -376,11 +376,13 @@ structure WSess where
   /-- `s.cid != nil` -/
   attached : Bool
   closed : Bool
+  /-- ghost (not a field of the Go struct): a DESCRIBE has been answered 200 -/
+  described : Bool
   deriving DecidableEq, Repr, Inhabited
 
 def WSess.init (wsPath : Str) : WSess :=
   { status := .init, paused := false, tr := Transport.init, path := wsPath, vControl := [], aControl := [],
-    rawSdp := 0, attached := false, closed := false }
+    rawSdp := 0, attached := false, closed := false, described := false }
 
 def wParseSdp (s : WSess) (info : SdpInfo) (id : Nat) : WSess × Bool :=
   let s := { s with rawSdp := id }
@@ -398,7 +400,7 @@ def wOnDescribe (s : WSess) (e : Env) (resp : Resp) : WSess × Resp :=
     else
       let (s, ok) := wParseSdp s (e.sdp st.sdp) st.sdp
       if !ok then (s, { resp with code := 404 })
-      else (s, { resp with sdp := some s.rawSdp })
+      else ({ s with described := true }, { resp with sdp := some s.rawSdp })
 
 def wToReady (s : WSess) : WSess :=
   if s.status.toNat < Status.ready.toNat then { s with status := .ready } else s
